@@ -92,6 +92,9 @@ class Closed:
                 return C if bt in (MAPC, 'EMPTYMAP') else U
             if nm == '_nfa_cache':
                 return ('tuple', self.cache_summary.get('ret', (U, U)))
+            h = self._local_wrapper(e)
+            if h is not None:
+                return self.tag(h[0], h[1](st))
             return U
         if isinstance(e, ast.Subscript):
             if u(e.value).endswith('delta'):
@@ -110,6 +113,26 @@ class Closed:
         if isinstance(e, ast.Tuple):
             return ('tuple', tuple(self.tag(x, st) for x in e.elts))
         return U
+
+    def _local_wrapper(self, e):
+        """call of a nested one-expression helper  def h(p..): return <expr>  -> (<expr>, env builder) ; the helper is
+        read as if its body stood at the call site (parameters bound to the tags of the arguments)"""
+        if not (isinstance(e, ast.Call) and isinstance(e.func, ast.Name) and e.func.id in self.f.nested) or e.keywords:
+            return None
+        g = self.f.nested[e.func.id]
+        body = [s for s in g.node.body if not (isinstance(s, ast.Expr) and isinstance(s.value, ast.Constant))]
+        if len(body) != 1 or not isinstance(body[0], ast.Return) or body[0].value is None:
+            return None
+        ps = [p for p in g.params]
+        if len(ps) != len(e.args) or any(isinstance(a, ast.Starred) for a in e.args):
+            return None
+
+        def env(st, ps=ps, args=e.args):
+            st2 = dict(st)
+            for p, a in zip(ps, args):
+                st2[p] = self.tag(a, st)
+            return st2
+        return body[0].value, env
 
     def _comp_env(self, comp, st):
         env = dict(st)
@@ -319,6 +342,17 @@ class Closed:
                     t = self.tag(src, st)
                 self.require('ii', e, t, 'symbol step `{}`'.format(u(e)))
                 n += 1
+            # (ii') symbol step inside a local one-expression helper: decided at each call of the helper
+            h = self._local_wrapper(e) if isinstance(e, ast.Call) else None
+            if h is not None:
+                for x in ast.walk(h[0]):
+                    if isinstance(x, ast.Call) and self.ctx.callee_name(self.f.nested[e.func.id], x) in STEPS and len(x.args) >= 3:
+                        st, nid = self.state_at(e)
+                        st2 = h[1](st)
+                        src = x.args[2]
+                        t = self.tag(src.elts[0], st2) if isinstance(src, ast.Set) and len(src.elts) == 1 else self.tag(src, st2)
+                        self.require('ii', e, t, 'symbol step `{}` (through the local helper {})'.format(u(x), e.func.id))
+                        n += 1
         # (ii) iteration whose element indexes a transition map / step cache with a symbol
         for lp in walk_no_nested(self.f.node):
             gens = []
